@@ -823,6 +823,19 @@ class VSocket:
             raise _oserr(_errno.ENOTCONN if self.state == "new" else _errno.EPIPE)
         if self.tx_hard_err is not None:
             raise _oserr(self.tx_hard_err)
+        hook = getattr(self.net.k, "io_hook", None)
+        if hook is not None:
+            # a real send() keeps the caller's buffer exported and releases the GIL for the duration of the
+            # system call: other threads run "inside" this call (opt-in scheduling point for the explorer)
+            try:
+                mv = memoryview(data)
+            except TypeError:
+                mv = None
+            try:
+                hook("send")
+            finally:
+                if mv is not None:
+                    mv.release()
         data = bytes(data)
         limit = None
         if self.tx_plan:
